@@ -451,6 +451,10 @@ class ViewsHooks(Hooks):
         src = [r for r in it.event_refs(ev) if r in self.tainted]
         val = out.value if out.ok else None
         one = isinstance(val, it.L.Wavefront) and any(np.ndim(f.data) == 2 and f.data.size == 1 for f in val.data)
+        if not one and self.pre is not None:
+            # the same convention on the plane's side: a plane whose arrays hold a single element acts as a scalar plane
+            pl = self.pre[0]
+            one = any(np.ndim(x) >= 2 and np.size(x) == 1 for x in (pl.amplitude, pl.opd, pl.mask))
         if ev.get('id') and (src or one):
             self.tainted.add(ev['id'])
             it.probe('one_element_field')
@@ -540,6 +544,8 @@ class ViewsHooks(Hooks):
             if tag.get('attribute_update'):
                 it.probe('phasor_after_attribute_update')
                 it.fault('attribute_update')
+            if tag.get('combo'):
+                it.probe('attributes:' + tag['combo'])
             if not out.value['ok']:
                 it.violate('C07.phasor', {'what': 'pointwise-phasor', 'nplanes': min(tag.get('nplanes', 1), 3)}, out.value['detail'], i)
         elif fn == 'check.phasor' and not out.ok:
@@ -582,7 +588,8 @@ class ViewsScenario(OpticsBase):
     must_hit = ['three_fields_overlap', 'clip:lo0', 'clip:hi0', 'clip:lo1', 'clip:hi1', 'clip:outside', 'scalar_plane',
                 'two_segmented_planes', 'px_conflict', 'default_plane', 'nfields:1', 'nfields:3+', 'disjoint_pair_bridged',
                 'phasor_after_caller_write', 'phasor_after_attribute_update']
-    probe_names = must_hit + ['coldwarm_audit']
+    probe_names = must_hit + ['coldwarm_audit', 'attributes:scalar-amplitude', 'attributes:no-opd', 'attributes:mask-only', 'attributes:typed-mask',
+                              'attributes:layouts']
 
     def program(self, rng, world, force=None):
         force = force or {}
@@ -654,9 +661,26 @@ class ViewsScenario(OpticsBase):
                     kw['amplitude'] = '@' + az
                 if rng.random() < 0.1:
                     kw['opd'] = rng.choice([0.0, 1e-7])
+                combo = force.get('combo') or rng.choice(['all', 'all', 'all', 'scalar-amplitude', 'no-opd', 'mask-only', 'typed-mask', 'layouts'])
+                if combo == 'scalar-amplitude' and 'mask' in kw:
+                    kw['amplitude'] = rng.choice([0.7, 1.0, 2.0])
+                elif combo == 'no-opd':
+                    kw.pop('opd')
+                elif combo == 'mask-only' and 'mask' in kw:
+                    kw.pop('opd')
+                    kw.pop('amplitude')
+                elif combo == 'typed-mask' and 'mask' in kw:
+                    # the same mask as booleans / integers (a mask a caller may well hand over)
+                    kw['mask'] = '@' + b.E('astype', [kw['mask'], rng.choice(['bool', 'int64', 'uint8', 'float32'])], tag='m')
+                elif combo == 'layouts':
+                    for name in ('opd', 'mask', 'amplitude'):
+                        if isinstance(kw.get(name), str) and rng.random() < 0.7:
+                            kw[name] = '@' + b.E('h.layout', [kw[name], rng.choice(['F', 'T', 'strided', 'crop'])], tag='l')
+                if combo != 'all':
+                    flags['combo'] = combo
                 p = b.E('Pupil', None, kw, tag='p')
-                opd_ref = kw['opd'] if isinstance(kw['opd'], str) else None
-                if rng.random() < 0.5 and opd_ref is not None:
+                opd_ref = kw['opd'] if isinstance(kw.get('opd'), str) else None
+                if rng.random() < 0.5 and opd_ref is not None and isinstance(kw.get('amplitude'), str):
                     opd_ref = kw['amplitude']           # the caller's in-place write goes to the amplitude array instead
                 amp_plane = (p, sname) if 'mask' not in kw or rng.random() < 0.5 else None
                 if k > 1:
@@ -670,7 +694,7 @@ class ViewsScenario(OpticsBase):
             w_before = w
             w = mul(p, w)
             b.E('check.phasor', ['@' + w, ['@' + x for x in planes], ph['wl']],
-                t={'nplanes': len(planes), 'scalar_plane': flags['scalar'], 'two_segmented': flags['nseg'] >= 2}, tag='c')
+                t={'nplanes': len(planes), 'scalar_plane': flags['scalar'], 'two_segmented': flags['nseg'] >= 2, 'combo': flags.pop('combo', None)}, tag='c')
             views(w)
             if amp_plane is not None and (rng.random() < 0.25 or force.get('caller_write')):
                 # the caller assigns a new amplitude / OPD through the documented attributes and sends the wavefront through again
@@ -888,7 +912,7 @@ class TiltScenario(OpticsBase):
                 'carrier:wavefront-tilt', 'carrier:fit', 'carrier:refit', 'carrier:dispersive', 'carrier:wavefront-tilt+fit',
                 'carrier:tilt-planes-before-pupil', 'carrier:fan-out', 'carrier:same-wavefront-resampled', 'carrier:same-tilt-twice',
                 'trace_order:1/1', 'carrier:fit-inplace', 'noncontiguous_opd', 'carrier:dispersive-high-order', 'trace_negative_arc',
-                'trace_negative_arc_high_order', 'dispersive_blue', 'dispersive_red']
+                'trace_negative_arc_high_order', 'dispersive_blue', 'dispersive_red', 'pupil_per_axis_pixels', 'output_mask']
     probe_names = must_hit + ['coldwarm_audit', 'no_common_samples', 'trace_order:2/1', 'trace_order:1/2', 'trace_order:2/2', 'trace_order:3/1']
 
     def program(self, rng, world, force=None):
@@ -931,7 +955,18 @@ class TiltScenario(OpticsBase):
         pk = {'pixelscale': du, 'shape': n, 'oversample': os_}
         if rng.random() < 0.5:
             pk['prop_shape'] = [rng.randint(max(1, n[0] // 2), n[0]), rng.randint(max(1, n[1] // 2), n[1])]
+        if force.get('out_mask') or (not force and rng.random() < 0.2):
+            # an output mask: only its bounding region is evaluated (off-centre, so windows are clipped asymmetrically)
+            om = b.A({'kind': rng.choice(['disk', 'rect', 'blob']), 'shape': [n[0] * os_, n[1] * os_], 'radius': min(n) * os_ / 3.0,
+                      'half': [max(1, n[0] * os_ // 3), max(1, n[1] * os_ // 4)], 'dr': rng.choice([0, 1, -2]), 'dc': rng.choice([0, 2, -1]),
+                      'p': 0.5, 'seed': b.sd()}, 'om')
+            pk['mask'] = '@' + om
+            flags.append('output_mask')
         dx = ph['dx']
+        if force.get('pupil_px') == 'per-axis' or (not force and rng.random() < 0.25):
+            # per-axis sampling of the pupil plane itself (a (2,) pixelscale): ramps, fits and the DFT all take the size of their own axis
+            dx = [ph['dx'], ph['dx'] * rng.choice([0.8, 1.25, 1.6])]
+            flags.append('pupil_per_axis_pixels')
         gm = b.E('h.global_mask', ['@' + m], tag='gm')
         rs = b.E('h.segment_ramp', ['@' + m, segt, dx], tag='rs')
         rg = b.E('h.segment_ramp', ['@' + gm, [[gx, gy]], dx], tag='rg')
@@ -969,7 +1004,7 @@ class TiltScenario(OpticsBase):
         b.E('check.equiv', ['@' + ib, '@' + ie, '@' + wpre, '@' + we_pre], t=dict(base_t, carrier='tilt-planes', permuted=nel > 1), tag='c')
         b.E('check.shift', ['@' + wpre, [['tilt', t[0], t[1]] for t in parts], z, du, os_],
             t={'n_elements': nel, 'square': square, 'kinds': 'tilt'}, tag='c')
-        if not per_seg and 'prop_shape' in pk and k == 1:
+        if not per_seg and 'prop_shape' in pk and k == 1 and 'mask' not in pk:
             er_ec = None
             b.E('check.window', ['@' + ib, list(np.array([z * gx / dur * os_, -z * gy / duc * os_]).tolist()),
                                  [n[0] * os_, n[1] * os_], [pk['prop_shape'][0] * os_, pk['prop_shape'][1] * os_]], t={'square': square}, tag='c')
@@ -1135,8 +1170,8 @@ class TiltScenario(OpticsBase):
         import random
         runs = []
         cases = [{'S': [7, 8], 'seg': True, 'square': True, 'mag': 'sub', 'nel': 3, 'os': 2, 'layout': 'F', 'disp_order': '2/1'},
-                 {'S': [6, 9], 'seg': False, 'square': False, 'mag': 'small', 'nel': 2, 'os': 1, 'layout': 'strided', 'disp_order': '1/1'},
-                 {'S': [8, 8], 'seg': True, 'square': False, 'mag': 'medium', 'nel': 3, 'os': 3, 'layout': 'T', 'disp_order': '1/2'},
+                 {'S': [6, 9], 'seg': False, 'square': False, 'mag': 'small', 'nel': 2, 'os': 1, 'layout': 'strided', 'disp_order': '1/1', 'out_mask': True},
+                 {'S': [8, 8], 'seg': True, 'square': False, 'mag': 'medium', 'nel': 3, 'os': 3, 'layout': 'T', 'disp_order': '1/2', 'pupil_px': 'per-axis'},
                  {'S': [5, 6], 'seg': False, 'square': True, 'mag': 'beyond', 'nel': 1, 'os': 1, 'layout': 'crop'},
                  {'S': [9, 7], 'seg': True, 'square': True, 'mag': 'small', 'nel': 3, 'os': 2, 'high_order': True, 'layout': 'crop', 'disp_order': '2/2'}]
         for j, force in enumerate(cases):
